@@ -259,6 +259,12 @@ def run_c05(tier):
         single_k = 4
     seeds = c05_seeds(tier)
     tasks = [(values, list(range(i, min(i + chunk, len(values)))), text_bits) for i in range(0, len(values), chunk)]
+    values2 = []
+    if tier != 'quick':
+        # long operands: up to 6 limbs over {0, 2^32-1} and up to 5 limbs over {0, 1, 2^32-1}
+        values2 = sorted(set(big_values(6, [0, (1 << 32) - 1])) | set(big_values(5, [0, 1, (1 << 32) - 1])),
+                         key=lambda x: (abs(x).bit_length(), abs(x), x < 0))
+        tasks += [(values2, list(range(i, min(i + 4, len(values2)))), text_bits) for i in range(0, len(values2), 4)]
     collect(st, pmap(c05_rows, tasks))
     collect(st, pmap(c05_singles, [(single_k, L5 if tier == 'quick' else L8, text_bits)]))
     collect(st, pmap(c05_closure, [(seeds, True)]))
@@ -270,7 +276,8 @@ def run_c05(tier):
         'rule': 'state = integer value; transition = one BigNum operation on an operand pair (pure and in-place), '
                 'result compared with Python int via == against from_vec(expected), sign/zero/low-limb observers '
                 'and decimal text for results up to %d bits' % text_bits,
-        'scope': {'distinct_operand_values': len(values), 'ordered_pairs': st.n.get('pairs', 0),
+        'scope': {'distinct_operand_values': len(values), 'long_operand_values_second_grid': len(values2),
+                  'ordered_pairs': st.n.get('pairs', 0),
                   'ops': list(BIN_OPS) + ['==', 'partial_cmp', 'neg', 'minus', 'from_vec', 'new'],
                   'limb_alphabet': 'L5=%r%s' % (L5, '' if tier == 'quick' else ' and L8=%r' % L8),
                   'max_limbs': 3 if tier == 'quick' else 4,
@@ -293,12 +300,17 @@ P_ABS = [0, 1, 2, 3, 4, 6, 9, (1 << 32) - 1, 1 << 32, (1 << 32) + 1, (1 << 64) +
 Q_SET = [1, 2, 3, 4, 6, 9, (1 << 32) - 1, 1 << 32, 3 * (1 << 32), (1 << 32) + 1, (1 << 64) + (1 << 32) - 1]
 
 
+P_ABS_T = P_ABS + [5, 7, 10, 65, 1 << 31, (1 << 33) + 3, (1 << 96) - 1, (1 << 64) * 3 + 1, 12345678901234567890]
+Q_SET_T = Q_SET + [5, 7, 10, 1 << 31, (1 << 33) + 3, (1 << 64) + 1, (1 << 64) - 1, (1 << 96) - 1]
+
+
 def rat_alphabet(tier):
-    """list of (ctor, args, value): values built through each constructor"""
+    """list of (p, q): every numerator (both signs) over every denominator"""
     items = []
-    ps = sorted(set(P_ABS) | set(-p for p in P_ABS))
+    pa, qs = (P_ABS, Q_SET) if tier == 'quick' else (P_ABS_T, Q_SET_T)
+    ps = sorted(set(pa) | set(-p for p in pa))
     for p in ps:
-        for q in Q_SET:
+        for q in qs:
             items.append((p, q))
     return items
 
@@ -605,6 +617,42 @@ def c07_rows(pairs, rows):
     st = Stats()
     sh = shim()
     vals = load_rationals(sh, st, 'C07', pairs, check_ctor=False)
+    n0 = len(vals)
+    # more representations of the same values: a non-reduced spelling through the constructor, and live results of
+    # additions / multiplications (x + 0, x * 1, (x + y) - y ...): comparison must not depend on how a value was made
+    extra = []
+    reqs = []
+    zero = next(k for k, v in enumerate(vals) if v == 0)
+    base_idx = sorted(set([k for k, v in enumerate(vals) if v is not None][:: max(1, n0 // 40)])
+                      | set(k for k, v in enumerate(vals) if v is not None and abs(v) <= 1 and v.denominator <= 2))
+    for k in base_idx:
+        v = vals[k]
+        r = n0 + len(extra)
+        reqs += [('num', 'bset', 0, R.lit(v.numerator * 6)), ('num', 'bset', 1, R.lit(v.denominator * 6)), ('num', 'nbig', r, 0, 1)]
+        extra.append(v)
+        for j in base_idx[:12]:
+            w = vals[j]
+            r = n0 + len(extra)
+            reqs += [('num', 'nop', 'add', k, j, 80000), ('num', 'nun', 'neg', j, 80001), ('num', 'nop', 'add', 80000, 80001, r)]
+            extra.append(v)            # (v + w) - w
+            if w != 0:
+                r = n0 + len(extra)
+                reqs += [('num', 'nop', 'mul', k, j, 80000), ('num', 'nun', 'flip', j, 80001), ('num', 'nop', 'mul', 80000, 80001, r)]
+                extra.append(v)        # (v * w) / w
+    for k, v in enumerate(vals[:n0]):
+        if v is None or v == 0:
+            continue
+        r = n0 + len(extra)
+        reqs += [('num', 'nun', 'neg', k, 80001), ('num', 'nop', 'add', k, 80001, r)]
+        extra.append(Fraction(0))      # v + (-v)
+        if k % 3 == 0:
+            r = n0 + len(extra)
+            reqs += [('num', 'nop', 'mul', zero, k, r)]
+            extra.append(Fraction(0))  # 0 * v
+    sh.batch(reqs)
+    vals = vals + extra
+    if rows and rows[0] == 0:
+        rows = list(rows) + list(range(n0, len(vals), 5))
     for i in rows:
         a = vals[i]
         reqs = [('num', 'ncmp', i, j) for j in range(len(vals))]
@@ -747,6 +795,32 @@ def c09_base(base, values):
         elif resp.startswith('ERR') or resp.startswith('PANIC'):
             st.violate(Violation('C09', 'num', 'big:from_string_base',
                                  {'kind': 'big_from_string', 'base': base, 'value': str(v)}, 'accepted', resp))
+    # values reached by arithmetic (not only by from_vec) are rendered conventionally too: cancellation to zero
+    reqs = []
+    for x in (5, base, (1 << 32) + 1, (1 << 64) - 1):
+        reqs += [('num', 'bset', 0, R.lit(-x)), ('num', 'bset', 1, R.lit(x)), ('num', 'bop', 'add', 0, 1, 2, '0'),
+                 ('num', 'bbase', 2, base),
+                 ('num', 'bset', 1, R.lit(-x)), ('num', 'bop', 'sub', 0, 1, 2, '0'), ('num', 'bbase', 2, base),
+                 ('num', 'bset', 0, R.lit(-2 * x)), ('num', 'bset', 1, R.lit(x)), ('num', 'bop', 'rem', 0, 1, 2, '0'),
+                 ('num', 'bbase', 2, base),
+                 ('num', 'bset', 0, R.lit(-x)), ('num', 'bset', 1, R.lit(3 * x)), ('num', 'bop', 'add', 0, 1, 2, R.lit(2 * x)),
+                 ('num', 'bbase', 2, base)]
+    resps = sh.batch(reqs)
+    for r, resp in zip(reqs, resps):
+        if r[1] != 'bbase':
+            continue
+        st.inc('transitions')
+        if not (resp == '0 1 1' or (resp.endswith(' 1 1') and not resp.startswith('0') and not resp.startswith('-'))):
+            st.violate(Violation('C09', 'num', 'big:base:arith-result', {'kind': 'big_base_arith', 'base': base},
+                                 'conventional text of the arithmetic result (0, or a positive numeral)', resp))
+    # characters outside 0-9A-Z (and a sign anywhere but in front) must be rejected, never mis-read
+    bad = ['1a', '1 ', ' 1', '+1', '1.0', '1/2', '1-', '٣', '１', '1_0']
+    resps = sh.batch([('num', 'bstr', 0, base, t) for t in bad])
+    for t, resp in zip(bad, resps):
+        st.inc('transitions')
+        if not resp.startswith('ERR'):
+            st.violate(Violation('C09', 'num', 'big:from_string_base:accepts',
+                                 {'kind': 'big_reject', 'base': base, 'text': t}, 'rejected (ParseError)', resp))
     st.inc('base_values', len(values))
     return st
 
@@ -887,6 +961,13 @@ def replay(case):
     if k == 'big_from_string':
         v = int(case['value'])
         return exp_big_obs(v), sh.call('num', 'bstr', 0, case['base'], R.to_base(v, case['base']))
+    if k == 'big_base_arith':
+        sh.call('num', 'bset', 0, R.lit(-5))
+        sh.call('num', 'bset', 1, R.lit(5))
+        sh.call('num', 'bop', 'add', 0, 1, 2, '0')
+        return '0 1 1', sh.call('num', 'bbase', 2, case['base'])
+    if k == 'big_reject':
+        return 'ERR ParseError', sh.call('num', 'bstr', 0, case['base'], case['text'])
     if k == 'num_roundtrip':
         sh.call('num', 'nnan', 0)
         return 'NaN round trip', sh.call('num', 'nrt', 0)
